@@ -1011,21 +1011,23 @@ def task_scans(ctx, n_atom, n_compound):
                                                             min_size=2, max_size=3))
     sa = st.tuples(atom_strategy(pool), st.sampled_from(["E", "E", "W"]), steps(energy_spec()),
                    st.sampled_from(["ndarray", "ndarray", "list"]), st.sampled_from(["factors", "sld"])).map(list)
-    ctx.search("scan-atom", sa, lambda c, v: check_scan_atom(c, v), n_atom)
+    if n_atom:
+        ctx.search("scan-atom", sa, lambda c, v: check_scan_atom(c, v), n_atom)
     sc = st.tuples(fa.compound(pool, depth=1, max_groups=2, max_atoms=3, density=False),
                    st.floats(1e-3, 50.0), st.floats(1e-3, 50.0), st.integers(0, 50), steps(energy_spec_compound()),
                    st.sampled_from(["E", "E", "W"]), st.sampled_from(["ndarray", "ndarray", "list"]),
                    st.lists(st.sampled_from(SCAN_ROUTES), min_size=1, max_size=3, unique=True),
                    st.booleans()).map(list)
-    ctx.search("scan-compound", sc, lambda c, v: check_scan_compound(c, v), n_compound)
+    if n_compound:
+        ctx.search("scan-compound", sc, lambda c, v: check_scan_compound(c, v), n_compound)
 
 
-def task_f0(ctx, n):
+def task_f0(ctx, n, sweep=True):
     E = env()
     syms = E["f0_syms"]
     ctx.extra["coefficient_sets"] = len(E["f0"])
     ctx.extra["sets_naming_an_atom_or_ion"] = len(syms)
-    for sym in syms:
+    for sym in (syms if sweep else []):
         for route in F0_ROUTES:
             for value in ([sym, route, Q_FIXED, False],
                           [sym, route, [["abs", 0.0]], True], [sym, route, [["lim", 0]], True],
@@ -1039,11 +1041,14 @@ def task_f0(ctx, n):
 def tasks(tier):
     out = [("sweep-%d" % k, task_sweep, dict(shard=k, nshards=4)) for k in range(4)]
     if tier == "quick":
-        out += [("factors-a", task_factors, dict(n=2600)),
-                ("factors-b", task_factors, dict(n=2600)),
+        out += [("factors-a", task_factors, dict(n=1750)),
+                ("factors-b", task_factors, dict(n=1750)),
+                ("factors-c", task_factors, dict(n=1750)),
                 ("element-sld", task_element_sld, dict(n=2000)),
-                ("f0", task_f0, dict(n=3000)),
-                ("scans", task_scans, dict(n_atom=600, n_compound=300))]
+                ("f0", task_f0, dict(n=1500)),
+                ("f0-generated", task_f0, dict(n=1500, sweep=False)),
+                ("scan-atoms", task_scans, dict(n_atom=600, n_compound=0)),
+                ("scan-compounds", task_scans, dict(n_atom=0, n_compound=250))]
         out += [("compounds-%d" % k, task_compounds, dict(n=250, depth=k % 3)) for k in range(4)]
         return out
     for k in range(4):
